@@ -7,13 +7,14 @@ package ingress
 //@ spec
 //@ ghost var selectedSecrets [][]byte
 //@ ghost var selectedAt time.Time
+//@ ghost var cacheClock time.Time
 //@ func unixTime(sec int64) time.Time := epoch() + sec * 1000000000
 //@ func signedMessage(ts string, method string, path string, body []byte) string := concat(ts, "\n", method, "\n", path, "\n", hexOf(sha256Of(body)))
 //@ pred hmacConfigured(a *HMACAuth) := a != nil && (len(a.Secrets) > 0 || a.SelectSecrets != nil)
 
 //@ fieldfunc ingress.nonceCache.now() (t)
-//@   modifies clockNow
-//@   ensures t != 0 && clockNow == t
+//@   modifies cacheClock
+//@   ensures t != 0 && cacheClock == t
 
 //@ fieldfunc ingress.HMACAuth.SelectSecrets(at) (out)
 //@   modifies selectedSecrets, selectedAt
@@ -32,21 +33,21 @@ package ingress
 
 //@ func (*nonceCache).seenOnceAt
 //@   requires c != nil
-//@   modifies c.m, clockNow
+//@   modifies c.m, cacheClock
 //@   loop 1 invariant [only_expired_dropped] forall k string :: old(k in c.m) && now <= old(c.m[k]) ==> k in c.m && c.m[k] == old(c.m[k])
 //@   loop 1 invariant [no_new] (forall k string :: k in c.m ==> old(k in c.m) && c.m[k] == old(c.m[k])) && c.m != nil
-//@   ensures [C09:reject_while_window_open] let at := ite(now != 0, now, clockNow) :: old(nonce in c.m) && at <= old(c.m[nonce]) ==> !result
+//@   ensures [C09:reject_while_window_open] let at := ite(now != 0, now, cacheClock) :: old(nonce in c.m) && at <= old(c.m[nonce]) ==> !result
 //@   ensures [C09:records_expiry] result ==> nonce in c.m && c.m[nonce] == expiresAt
-//@   ensures [C09:live_entries_kept] let at := ite(now != 0, now, clockNow) :: forall k string :: k != nonce && old(k in c.m) && at <= old(c.m[k]) ==> k in c.m && c.m[k] == old(c.m[k])
+//@   ensures [C09:live_entries_kept] let at := ite(now != 0, now, cacheClock) :: forall k string :: k != nonce && old(k in c.m) && at <= old(c.m[k]) ==> k in c.m && c.m[k] == old(c.m[k])
 //@   ensures [C09:refusal_keeps_entry] !result && nonce != "" ==> nonce in c.m && c.m[nonce] == old(c.m[nonce])
-//@   ensures [C09:accepts_new] let at := ite(now != 0, now, clockNow) :: nonce != "" && !(old(nonce in c.m) && at <= old(c.m[nonce])) ==> result
+//@   ensures [C09:accepts_new] let at := ite(now != 0, now, cacheClock) :: nonce != "" && !(old(nonce in c.m) && at <= old(c.m[nonce])) ==> result
 //@   ensures [empty_nonce_refused] nonce == "" ==> !result
-//@   ensures [clock_untouched_when_given] now != 0 ==> clockNow == old(clockNow)
+//@   ensures [clock_untouched_when_given] now != 0 ==> cacheClock == old(cacheClock)
 
 //@ func (*nonceCache).seenOnce
 //@   requires c != nil
-//@   modifies c.m, clockNow
-//@   ensures [C09:reject_while_window_open] old(nonce in c.m) && clockNow <= old(c.m[nonce]) ==> !result
+//@   modifies c.m, cacheClock
+//@   ensures [C09:reject_while_window_open] old(nonce in c.m) && cacheClock <= old(c.m[nonce]) ==> !result
 //@   ensures [C09:records_expiry] result ==> nonce in c.m && c.m[nonce] == expiresAt
 
 //@ func secureEqual
@@ -59,7 +60,7 @@ package ingress
 
 //@ func (*HMACAuth).Verify
 //@   requires r != nil && r.Header != nil
-//@   modifies a.nonce, a.nonce.now, a.nonce.m, clockNow, macKey, macData, selectedSecrets, selectedAt
+//@   modifies a.nonce, a.nonce.now, a.nonce.m, clockNow, cacheClock, macKey, macData, selectedSecrets, selectedAt
 //@   loop 1 invariant [none_before] forall j int :: 0 <= j && j <= rangeindex ==> !(len(secrets[j]) > 0 && gotSig == hmacSHA256(secrets[j], msg))
 //@   ensures [C08:unconfigured_passes] !hmacConfigured(a) ==> result == nil
 //@   ensures [C08:only_unauthorized] result == nil || result == ErrUnauthorized
